@@ -84,7 +84,7 @@ theorem rep_return {G : GCtx} (ok : G.OK) {pi : PInfo} (hpi : pi ∈ G.procs) (s
     (hlo : G.lo ≤ sp) (hspv : sp + G.S pi + pi.po + pi.p.formals.length ≤ G.spv + 1) {s s' : X.St} {mem1 mem2 : Mem}
     (rep : Rep (KOf G pi sp dep hi) s mem1) (hg : GRep G s' mem2)
     (hloc : s'.locals = s.locals) (hdep : s'.depth = s.depth) (h1 : mem2.read 1 = BitVec.ofNat 32 sp) (q : Nat)
-    (hkeep : ∀ x, sp + q ≤ x → mem2.read x = mem1.read x) (hq : pi.p.locals.length + q ≤ G.S pi) :
+    (hkeep : ∀ x, sp + q ≤ x → ¬ G.inArr x → mem2.read x = mem1.read x) (hq : pi.p.locals.length + q ≤ G.S pi) :
     Rep (KOf G pi sp dep hi) s' mem2 := by
   have wf := ok.wfs pi hpi sp dep hi hlo hspv
   exact {
@@ -113,7 +113,7 @@ theorem rep_return {G : GCtx} (ok : G.OK) {pi : PInfo} (hpi : pi ∈ G.procs) (s
             simp at this
           · have : sp + G.S pi ≤ a + pi.p.locals.length := hhigh
             omega
-        rw [hkeep a hge]
+        rw [hkeep a hge (wf.loc_na n a ha)]
         exact hv
       | none =>
         unfold X.readName at hr
@@ -129,7 +129,7 @@ theorem rep_return {G : GCtx} (ok : G.OK) {pi : PInfo} (hpi : pi ∈ G.procs) (s
           | proc q => simp at hr
           | var =>
             simp only at hr
-            have hn : n ∈ G.gnames := (ok.genv_vars n).mpr hgv
+            have hn : n ∈ G.gnames := ok.genv_vars n hgv
             cases hgl : s'.gvars.lookup n with
             | none => rw [hgl] at hr; simp at hr
             | some o =>
@@ -139,7 +139,7 @@ theorem rep_return {G : GCtx} (ok : G.OK) {pi : PInfo} (hpi : pi ∈ G.procs) (s
               | some w' =>
                 simp only [Except.ok.injEq, Val.int.injEq] at hr
                 subst hr
-                obtain ⟨a, ha, hm⟩ := hg.gvars n w' hn hgl
+                obtain ⟨a, ha, hm⟩ := hg.gvars n w' hgv hgl
                 have hlt := ok.gloc_lo n hn a ha
                 have htop := ok.top
                 refine ⟨a, ?_, by unfold memWords at *; omega, hm⟩
@@ -153,15 +153,67 @@ theorem rep_return {G : GCtx} (ok : G.OK) {pi : PInfo} (hpi : pi ∈ G.procs) (s
       rw [← hloc]
       exact hv
     above := by
-      intro a ha
+      intro a ha hna
       have : sp + G.S pi ≤ a := ha
-      rw [hkeep a (by omega)]
-      exact rep.above a ha
+      rw [hkeep a (by omega) hna]
+      exact rep.above a ha hna
     gvis := by
       intro n hn
       rw [hloc]
       exact rep.gvis n hn
-    depth := by rw [hdep]; exact rep.depth }
+    depth := by rw [hdep]; exact rep.depth
+    aptr := by
+      intro n r hr
+      change X.readName G.xc s' n = .ok (.arr r) at hr
+      cases hl : s'.locals.lookup n with
+      | some b =>
+        have hl0 : s.locals.lookup n = some b := by rw [← hloc]; exact hl
+        have hr0 : X.readName G.xc s n = .ok (.arr r) := by
+          unfold X.readName at hr ⊢
+          rw [hl] at hr
+          rw [hl0]
+          cases b with
+          | var o => cases o <;> exact hr
+          | _ => exact hr
+        obtain ⟨id, a, hid, ha, hlt, hv⟩ := rep.aptr n r hr0
+        refine ⟨id, a, hid, ha, hlt, ?_⟩
+        have hge : sp + q ≤ a := by
+          rcases wf.loc_sep n a ha with hlow | hhigh
+          · have hng := ok.low_global pi hpi sp n a hlo ha hlow
+            have := rep.gvis n (List.mem_append_left _ hng)
+            rw [hl0] at this
+            simp at this
+          · have : sp + G.S pi ≤ a + pi.p.locals.length := hhigh
+            omega
+        rw [hkeep a hge (wf.loc_na n a ha)]
+        exact hv
+      | none =>
+        unfold X.readName at hr
+        rw [hl] at hr
+        simp only at hr
+        cases hgv : G.xc.genv.lookup n with
+        | none => rw [hgv] at hr; simp at hr
+        | some g =>
+          rw [hgv] at hr
+          cases g with
+          | val w' => exact absurd hgv (ok.no_vals n w')
+          | proc q => simp at hr
+          | var =>
+            exfalso
+            simp only at hr
+            cases hgl : s'.gvars.lookup n with
+            | none => rw [hgl] at hr; simp at hr
+            | some o => rw [hgl] at hr; cases o <;> simp at hr
+          | array id =>
+            simp only [Except.ok.injEq, Val.arr.injEq] at hr
+            have hn := ok.genv_arrs n id hgv
+            obtain ⟨a, ha, hm⟩ := hg.aptr n id hgv
+            have hlt := ok.gloc_lo n hn a ha
+            have htop := ok.top
+            refine ⟨id, a, hr.symm, ?_, by unfold memWords at *; omega, hm⟩
+            show G.locOf pi sp n = _
+            rw [ok.gloc_ok pi hpi _ n hn]; exact ha
+    acells := hg.acells }
 
 def PInfo.callKind (pj : PInfo) : CallKind := if pj.p.isFunc then .func pj.p.name else .proc pj.p.name
 
@@ -187,10 +239,21 @@ theorem exec_usercall {G : GCtx} (ok : G.OK) (fuel : Nat) (hcs : CallSpec G fuel
     (hsz : gs'.size ≤ G.S pi) (hnl : pi.p.locals.length ≤ gs.offset) (hci : ConstsIn (KOf G pi sp dep hi) gs') :
     match X.callUser fuel G.xc pj.p (ws.map Val.int) s with
     | .ok res s' => ∃ a' b' mem', Steps G.env (cfg i a b mem) st.io (cfg (i + (lowerCode G.cg code).length) a' b' mem') s'.io ∧
-        Rep (KOf G pi sp dep hi) s' mem' ∧ (pj.p.isFunc = true → ∀ w, res = some w → a' = w)
+        Rep (KOf G pi sp dep hi) s' mem' ∧ (pj.p.isFunc = true → ∀ w, res = some w → a' = w) ∧
+        FrmC (KOf G pi sp dep hi) gs.offset (G.S pi) mem mem'
     | .exit cd s' => ∃ c, Steps G.env (cfg i a b mem) st.io c s'.io ∧ Exit G.env c s'.io cd
     | .undef _ => True := by
   have wf := ok.wfs pi hpi sp dep hi hlo hspv
+  have hfrm : ∀ (q : Nat) (mem1 mem2 : Mem), q + gs.offset ≤ G.S pi → (∀ x, sp + q ≤ x → ¬ G.inArr x → mem2.read x = mem1.read x) →
+      FrmC (KOf G pi sp dep hi) gs.offset (G.S pi) mem1 mem2 := by
+    intro q mem1 mem2 hq hk a hsp hna hne
+    have hsp' : sp ≤ a := hsp
+    by_cases ha : sp + q ≤ a
+    · exact hk a ha hna
+    · exfalso
+      apply hne (G.S pi - 1 - (a - sp)) (by omega) (by omega)
+      show a = sp + G.S pi - 1 - (G.S pi - 1 - (a - sp))
+      omega
   obtain ⟨c1, gs1, c2, gs2, h1, h2, hcode, hgs'⟩ := callSeq_inv _ _ _ _ _ _ _ _ hg
   obtain ⟨hnc, hcnt⟩ := genCallActuals_noCall (G.ctxOf pi) (optArgsOf (fun _ => none) es) { gs with size := gs.offset }
     (optArgsOf_noCall _ es hp)
@@ -214,7 +277,7 @@ theorem exec_usercall {G : GCtx} (ok : G.OK) (fuel : Nat) (hcs : CallSpec G fuel
   have hs2 := evalArgs_pure G.xc es fuel' st s _ hp hev
   have hpo := po_pos pj
   obtain ⟨a1, b1, mem1, st1, rep1, hvals, _, frm1⟩ := exec_loadActuals (KOf G pi sp dep hi) wf.toWF es fuel' st s ws hp hev
-    pj.po gs.offset _ c2 gs2 i a b mem st.io h2 hat.left hr (by show gs2.size + (pj.po + es.length) ≤ G.S pi; omega) hnl
+    pj.po gs.offset _ c2 gs2 i a b mem st.io rfl h2 hat.left hr (by show gs2.size + (pj.po + es.length) ≤ G.S pi; omega) hnl
     (Nat.le_refl _) (fun x hx => hci x hx)
   have rep1s : Rep (KOf G pi sp dep hi) s mem1 := rep1.same hs2
   have grep := Rep.toG ok hpi rep1s
@@ -262,7 +325,7 @@ theorem exec_usercall {G : GCtx} (ok : G.OK) (fuel : Nat) (hcs : CallSpec G fuel
       rw [hio] at hs
       obtain ⟨hl', hd'⟩ := callUser_frame _ _ _ _ _ _ _ hx
       have rep2 := rep_return ok hpi sp dep hi hlo hspv rep1s grep2 hl' hd' h21 2
-        (fun x hx => hkeep x (by omega) (by omega)) (by omega)
+        (fun x hx hna => hkeep x (by omega) (by omega) hna) (by omega)
       have sLab := Step.label (env := G.env) (cfg (i + (lowerCode G.cg c2).length + 2) a2 b2 mem2) s'.io _ _ t2
       have sLdam := Step.ldam (env := G.env) (cfg (i + (lowerCode G.cg c2).length + 2 + 1) a2 b2 mem2) s'.io 1 _ t3 (ld_one mem2)
       have hs1lt : sp + 1 < memWords := by have := ok.top; unfold memWords at *; omega
@@ -272,7 +335,8 @@ theorem exec_usercall {G : GCtx} (ok : G.OK) (fuel : Nat) (hcs : CallSpec G fuel
         rw [show IAm.W ((1 : Nat) : Int) = 1 from W_one] at this
         rw [this, ld_ofNat _ _ hs1lt]
       have sLdai := Step.ldai (env := G.env) (cfg (i + (lowerCode G.cg c2).length + 2 + 1 + 1) (mem2.read 1) b2 mem2) s'.io 1 _ t4 l3
-      refine ⟨mem2.read (sp + 1), b2, mem2, ?_, rep2, fun _ w hw => hres w hw⟩
+      refine ⟨mem2.read (sp + 1), b2, mem2, ?_, rep2, fun _ w hw => hres w hw,
+        frm1.trans (hfrm 2 mem1 mem2 (by omega) (fun x hx hna => hkeep x (by omega) (by omega) hna))⟩
       have : i + ((lowerCode G.cg c2).length + [Dir.ref 0x5 (lab gs2.labelCount) true, .ref 0x9 pj.p.name true,
           .label .plain (lab gs2.labelCount), .imm 0x0 1, .imm 0x6 1].length)
           = i + (lowerCode G.cg c2).length + 2 + 1 + 1 + 1 := by simp; omega
@@ -313,12 +377,16 @@ theorem exec_usercall {G : GCtx} (ok : G.OK) (fuel : Nat) (hcs : CallSpec G fuel
       rw [hio] at hs
       obtain ⟨hl', hd'⟩ := callUser_frame _ _ _ _ _ _ _ hx
       have rep2 := rep_return ok hpi sp dep hi hlo hspv rep1s grep2 hl' hd' h21 1
-        (fun x hx => by
+        (fun x hx hna => by
           by_cases h1 : x = sp + 1
           · subst h1; exact hsame hf
-          · exact hkeep x (by omega) h1) (by omega)
+          · exact hkeep x (by omega) h1 hna) (by omega)
       have sLab := Step.label (env := G.env) (cfg (i + (lowerCode G.cg c2).length + 2) a2 b2 mem2) s'.io _ _ t2
-      refine ⟨a2, b2, mem2, ?_, rep2, fun h => by simp at h⟩
+      refine ⟨a2, b2, mem2, ?_, rep2, fun h => by simp at h,
+        frm1.trans (hfrm 1 mem1 mem2 (by omega) (fun x hx hna => by
+          by_cases h1 : x = sp + 1
+          · subst h1; exact hsame hf
+          · exact hkeep x (by omega) h1 hna))⟩
       have : i + ((lowerCode G.cg c2).length + [Dir.ref 0x5 (lab gs2.labelCount) true, .ref 0x9 pj.p.name true,
           .label .plain (lab gs2.labelCount)].length)
           = i + (lowerCode G.cg c2).length + 2 + 1 := by simp; omega
